@@ -210,6 +210,15 @@ def check(model, rep):
                 'element\'s position and speed, its result type-checked and stored, and E[i-1].load = E[i].load / eff / ratio '
                 'over E[0..n-2]; net = driving - load over all elements; and no stale read of any attribute or of the time '
                 'axis inside the instant. Code shape only; the motor law is decided by C08.')
+    # the motor's driving torque must be the documented characteristic: the law extracted by C08's rules
+    from sa.core import Report
+    from checks import c08
+    dep = Report('C08')
+    c08.check(model, dep)
+    rep.absorb(dep, {'C08.law.torque': 'C02.motor-law', 'C08.units': 'C02.motor-law.units', 'C08.pure': 'C02.motor-law.pure'})
+    from sa import sx as _sxm
+    _sxm.POSITIVE_ATOMS.clear()
+    _sxm.NONNEG_ATOMS.clear()
     try:
         rm = run_model(model)
     except CannotDecide as e:
@@ -227,12 +236,6 @@ def check(model, rep):
     check_forwarding(model, rep, 'C02.forwarding', ('torque', 'driving_torque', 'load_torque', 'master_gear_ratio', 'master_gear_efficiency', 'external_torque', 'angular_position', 'angular_speed'))
     from sa.forwarding import check_setter_stores
     check_setter_stores(model, rep, 'C02.setter-stores', ('torque', 'driving_torque', 'load_torque', 'master_gear_ratio', 'master_gear_efficiency', 'external_torque'))
-    # the motor's driving torque must be the documented characteristic: the law extracted by C08's rules
-    from sa.core import Report
-    from checks import c08
-    dep = Report('C08')
-    c08.check(model, dep)
-    rep.absorb(dep, {'C08.law.torque': 'C02.motor-law', 'C08.units': 'C02.motor-law.units', 'C08.pure': 'C02.motor-law.pure'})
     rep.analysed.update({'run_paths': len(rm.paths), 'instant_contexts': len(ins)})
     rep.require('C02.driving', 2)
     rep.require('C02.load', 2)
